@@ -26,9 +26,9 @@ A case is 2-4 *sessions*, each on a freshly elaborated endpoint.  A session =
 Oracle (written from the statement and USB 3.2 chapter 8, nothing taken from luna): the words the endpoint accepts
 (`valid & ready`) are cut into the expected packet list: a packet is complete when it holds max_packet_size bytes or when
 its word carried `last`; a transfer that ends on a full packet is followed by a zero-length packet.  Then
-  * an IN request is answered (first `tx` word, `tx_zlp` or NRDY request within RESPONSE_WINDOW cycles) - with data iff the
-    next undelivered packet was complete SLACK cycles before the request, with NRDY iff it was not complete at the request
-    (in between both are accepted);
+  * an IN request is answered (first `tx` word, `tx_zlp` or NRDY request within RESPONSE_WINDOW cycles); NRDY is wrong if the
+    next undelivered packet was complete more than SLACK cycles before the request, data is wrong if that packet was not
+    complete before the answer started;
   * after NRDY exactly one ERDY is requested, within ERDY_WINDOW cycles of the packet becoming complete; no ERDY without NRDY;
   * every new data packet carries the host's expected sequence number (starts at 0, +1 mod 32 per acknowledged packet, 0
     after ep_reset), the endpoint number, `tx_length` = number of bytes in the stream = expected packet length, and the
@@ -40,8 +40,8 @@ its word carried `last`; a transfer that ends on a full packet is followed by a 
 After a violation the model re-synchronises where the hardware stays self-consistent (sequence number adopted, unanswered
 request re-issued as a real host would after its timeout) and gives up the session where it does not.
 
-Not judged: `first` on tx, tx_direction, burst (NumP > 1 is sent as a request for one packet only in the sense that at
-least one packet must follow), Rty=1 with NumP=0, ACK TPs to the endpoint that no host would send (acknowledging nothing),
+Not judged: `first` on tx, tx_direction, bursts (the host never asks for more than one packet: NumP is 0 or 1, as for an
+endpoint without burst capability), Rty=1 with NumP=0, ACK TPs to the endpoint that no host would send (acknowledging nothing),
 input words with partial `valid` that are not the last of a transfer, behaviour of buffered data across `ep_reset` (resets
 are only issued when nothing is buffered).
 """
@@ -542,7 +542,7 @@ class Session:
                     else:
                         yield from self.idle(rng.choice([10, 30, 60, 150, 400]))
                 self.drain()
-                t_req = self.tp(self.ep, H["seq"], 1 if rng.random() < 0.85 else rng.randint(2, 4), 0)
+                t_req = self.tp(self.ep, H["seq"], 1, 0)
                 kind = "in"
                 res.event("in_requests")
                 yield
@@ -603,9 +603,11 @@ class Session:
                 raise GiveUp()
             if dp["zlp"] and H["zlp_flag"] and not retry:
                 self.zlp_repeated(dp)
-            if must_nrdy and not dp.get("broken"):
-                self.violation("data_sent_although_no_complete_packet", "request at %d; %d packets complete, %d delivered; tx_length=%d, %s bytes" % (
-                    t_req, len(exp), H["next"], dp["len"], len(dp["data"])))
+            if not retry and not dp.get("broken") and (H["next"] >= len(exp) or exp[H["next"]]["t"] >= dp["start"]):
+                # (judged at the time the answer starts, not at the time of the request: a slower endpoint may legitimately
+                # answer with a packet that became complete after the request)
+                self.violation("data_sent_although_no_complete_packet", "request at %d, answer started at %d; %d packets complete, %d delivered; tx_length=%d, %s bytes" % (
+                    t_req, dp["start"], len(exp), H["next"], dp["len"], len(dp["data"])))
                 raise GiveUp()
             if not self.judge_dp(dp, retry, kind):
                 raise GiveUp()
